@@ -301,7 +301,7 @@ cv_i64 std_min_il(cv_i64 *a, cv_i64 n) {
   __CPROVER_loop_invariant(gh_aw_state == 0 ==> gh_n_res_AW == __CPROVER_loop_entry(gh_n_res_AW))
 void q_push_lk(QT *this_, ULK *lk, cv_i64 count)
 __CPROVER_requires(cv_exc_pending == 0 && this_ == ps_q && lk->_M_device == &this_->_mx && lk->_M_owns == 1 && HELD(this_))
-__CPROVER_requires(count < PS_BIG && Q_CFG && Q_STREAM(count) && POS + count < PS_BIG && dq_len >= MIN2(MINL, POS - 1) + count && dq_len <= MAXL + count && Q_REGS)
+__CPROVER_requires(count < PS_BIG && Q_CFG && Q_STREAM(count) && POS + count < PS_BIG && dq_len >= MIN2(MINL, POS - 1) + count && dq_len - count <= MAXL && Q_REGS)
 __CPROVER_requires((T_IN ==> SLOT_INV_PUSHPRE(T, gh_RH)) && rg_other_idx == RG_NONE && GH_PIN)
 __CPROVER_requires(gh_pos0 == POS && gh_len0 == dq_len && gh_cnt == count && gh_ret0 <= 1 && (gh_ret0 ==> RETAINS(T._pos, dq_len - count, POS, MAXL)))
 __CPROVER_requires(gh_rely_on == 1 && gh_n_unlock_chk == 0 && gh_n_res < PS_BIG && gh_n_sp_dtor < PS_BIG && gh_n_res_AW < PS_BIG)
